@@ -589,6 +589,11 @@ class ChoiceLoader(BaseLoader):
         self, environment: "Environment", template: str
     ) -> tuple[str, str | None, t.Callable[[], bool] | None]:
         for loader in self.loaders:
+            # A loader that cannot provide source (ModuleLoader) has no
+            # answer to this question; it does not end the search.
+            if not getattr(loader, "has_source_access", True):
+                continue
+
             try:
                 return loader.get_source(environment, template)
             except TemplateNotFound:
